@@ -47,7 +47,8 @@ def case_strategy(draw, big=False):
                  gen.r6(draw(st.floats(-180, 180)))]
         else:
             v = [gen.r6(draw(st.floats(-2, 2)) * lam), gen.r6(draw(st.floats(-2, 2)) * lam), gen.r6(draw(st.floats(0, 2)) * lam)]
-        case['xforms'].append({'kind': kind, 'key': float(k0 + i), 'v': v, 'tag': tag})
+        # sort keys may be equal (such transformations act in the order given, rotations first)
+        case['xforms'].append({'kind': kind, 'key': float(k0 + (i if draw(st.integers(0, 2)) else draw(st.integers(0, 1)))), 'v': v, 'tag': tag})
     for i in range(draw(st.sampled_from([0, 0, 0, 1, 2]))):
         case['scales'].append({'f': gen.r6(draw(gen.logf(0.5, 2.0))), 'tag': draw(st.sampled_from([None, None] + tagsl))})
     # a 1 V source among several
